@@ -8,6 +8,7 @@ def main : IO UInt32 :=
     | "c12" => C12.check params lines
     | "c12fork" => C01.check params lines
     | "c12seq" => C01.check params lines
+    | "c12turns" => C01.check params lines
     | "c12nest" => C12.checkNest params lines
     | "c12loop" => C12.checkLoop params lines
     | _ => { bad := [s!"unknown family {family}"] })
